@@ -27,7 +27,11 @@ func escapeTemplate(tmpl *Template, node parse.Node, name string) error {
 	c, _ := tmpl.esc.escapeTree(context{}, node, name, 0)
 	var err error
 	if c.err != nil {
-		err, c.err.Name = c.err, name
+		// The error may be shared with the memo of analysed templates and with errors
+		// returned to other goroutines earlier; do not modify it in place.
+		cerr := *c.err
+		cerr.Name = name
+		err = &cerr
 	} else if c.state != stateText {
 		err = &Error{ErrEndContext, nil, name, 0, fmt.Sprintf("ends in a non-text context: %+v", c)}
 	}
@@ -413,8 +417,10 @@ func (e *escaper) escapeBranch(c context, n *parse.BranchNode, nodeName string) 
 			// Make clear that this is a problem on loop re-entry
 			// since developers tend to overlook that branch when
 			// debugging templates.
-			c0.err.Line = n.Line
-			c0.err.Description = "on range loop re-entry: " + c0.err.Description
+			cerr := *c0.err
+			cerr.Line = n.Line
+			cerr.Description = "on range loop re-entry: " + cerr.Description
+			c0.err = &cerr
 			return c0
 		}
 	}
